@@ -23,6 +23,9 @@ def _site():
     while f is not None:
         fn = f.f_code.co_filename
         if 'geometry_tools' in fn:
+            if f.f_code.co_name in ('astype', 'scalar') and fn.endswith('utils/core.py'):
+                f = f.f_back          # thin casting wrappers: the caller decides
+                continue
             return f.f_code.co_name
         if fn.endswith('symnp/npmodels.py') and f.f_code.co_name.startswith('model_'):
             return f.f_code.co_name
